@@ -270,3 +270,55 @@ impl Collect for Shared {
         self.0.current_span()
     }
 }
+
+/// Like `Shared`, but dropping it (= dropping the last `Dispatch` clone) runs `on_drop` first:
+/// a collector that emits while it is being torn down (an exporter logging on shutdown).
+pub struct SharedBye {
+    pub inner: std::sync::Arc<FilterCollector>,
+    pub on_drop: Box<dyn Fn() + Send + Sync>,
+}
+
+impl Drop for SharedBye {
+    fn drop(&mut self) {
+        (self.on_drop)()
+    }
+}
+
+impl Collect for SharedBye {
+    fn register_callsite(&self, m: &'static Metadata<'static>) -> Interest {
+        self.inner.register_callsite(m)
+    }
+    fn enabled(&self, m: &Metadata<'_>) -> bool {
+        self.inner.enabled(m)
+    }
+    fn max_level_hint(&self) -> Option<LevelFilter> {
+        self.inner.max_level_hint()
+    }
+    fn new_span(&self, a: &Attributes<'_>) -> Id {
+        self.inner.new_span(a)
+    }
+    fn record(&self, s: &Id, r: &Record<'_>) {
+        self.inner.record(s, r)
+    }
+    fn record_follows_from(&self, a: &Id, b: &Id) {
+        self.inner.record_follows_from(a, b)
+    }
+    fn event(&self, e: &Event<'_>) {
+        self.inner.event(e)
+    }
+    fn enter(&self, s: &Id) {
+        self.inner.enter(s)
+    }
+    fn exit(&self, s: &Id) {
+        self.inner.exit(s)
+    }
+    fn clone_span(&self, s: &Id) -> Id {
+        self.inner.clone_span(s)
+    }
+    fn try_close(&self, s: Id) -> bool {
+        self.inner.try_close(s)
+    }
+    fn current_span(&self) -> Current {
+        self.inner.current_span()
+    }
+}
